@@ -11,6 +11,11 @@ use std::time::Instant;
 
 fn main() {
     let args: Vec<String> = std::env::args().collect();
+    if args.len() >= 2 && args[1] == "envprobe" {
+        // child mode of the "process environment" workloads (props/envprobe.rs): exit code 0 + an OK line, or 3
+        install_panic_hook();
+        std::process::exit(props::envprobe::child(&args[2..]));
+    }
     if args.len() < 3 {
         eprintln!("usage: astromon <Cnn> <quick|thorough> --build <san|rel> --seed <n> --out <file> [--single <workload> <idx>]");
         std::process::exit(64);
